@@ -51,7 +51,7 @@ def floors(tier):
     return {'evaluations': 30000, 'distinct_nontrivial': 10000, 'errors_located': 15000,
             'faults_injected': 20000, 'histkeys:fault': 9, 'legacy_api_errors': 3000,
             'custom_context_soups': 500, 'parser_class_context_soups': 1000, 'parses_from_configured_state': 2000,
-            'stop_condition_entry_points': 3000, 'truncated_documents_parsed_before_injection': 500,
+            'stop_condition_entry_points': 3000, 'bodies_without_their_closing_token': 300, 'truncated_documents_parsed_before_injection': 500,
             'failed_parse_inside_verbatim_then_stray_brace': 20, 'histkeys:numbering': 2, 'hist:numbering:line_number_offset': 5000}
 
 
@@ -78,6 +78,16 @@ def strict_outcome(s, ctx, api, psopts=None, numbering=None):
         elif api == 'single-node':
             from pylatexenc.latexnodes.parsers import LatexSingleNodeParser
             nl, _ = lw.parse_content(LatexSingleNodeParser())
+        elif api.startswith('legacy-body-of-env:'):
+            # the legacy entry point reading the body of an environment / a group whose opener the caller has consumed
+            nl = lw.get_latex_nodes(stop_upon_end_environment=api.split(':', 1)[1])[0]
+        elif api.startswith('legacy-body-of-group:'):
+            nl = lw.get_latex_nodes(stop_upon_closing_brace=api.split(':', 1)[1])[0]
+        elif api.startswith('new-body-of-env:'):
+            from pylatexenc.latexnodes.parsers import LatexGeneralNodesParser as _G
+            name = api.split(':', 1)[1]
+            nl, _ = lw.parse_content(_G(stop_token_condition=lambda t: t.tok == 'end_environment' and t.arg == name,
+                                        require_stop_condition_met=True))
         return 'ok', nl, lw
     except LatexWalkerParseError as e:
         return 'parse_error', e, None
@@ -204,6 +214,15 @@ def run_shard(desc, rec):
                 check_case({'s': s, 'ctx': cdesc}, rec)
                 continue
             envname = 'zz' if vocab.unknown_ok else 'enva'
+            # the same well-formed document read as the *body* of a construct whose opener was consumed by the caller: the
+            # opener is then the single unmatched addition, and reaching the end of the input must be an error
+            if i % 2 == 0:
+                for api in ('legacy-body-of-env:' + envname, 'legacy-body-of-group:}', 'legacy-body-of-group:]',
+                            'new-body-of-env:' + envname):
+                    rec.case()
+                    rec.monitor('bodies_without_their_closing_token')
+                    check_case({'s': s, 'ctx': cdesc, 'must_raise': True, 'fault': 'opener consumed by the caller (%s)' % api,
+                                'at': 0, 'apis': [api]}, rec)
             # earlier failed parses in the same process (same context database, same cached argument parsers): the
             # document cut off at arbitrary places, e.g. inside an argument or inside verbatim text
             for _ in range(2):
